@@ -334,6 +334,10 @@ def check(pid, tier, seed):
     ok, blog, theorems, printed, answers = build_props(cfg, int(cfg.get("make_timeout_s", 1500)))
     obligations = len(theorems)
     discharged = obligations if (ok and not bad) else 0
+    global THEOREM_REPORT
+    THEOREM_REPORT = [{"theorem": t, "print_assumptions": (("Closed under the global context" if not answers[i] else ", ".join(answers[i]))
+                                                           if ok and i < len(answers) and i < len(printed) and printed[i] == t else "not checked in this run")}
+                      for i, t in enumerate(theorems)]
     axioms = sorted({a for ans in answers for a in ans})
     proof_broken = None
     if gen_err:
@@ -461,6 +465,9 @@ def check(pid, tier, seed):
     return exit_code
 
 
+THEOREM_REPORT = []
+
+
 def write_evidence(cfg, path, tier, seed, t0, obligations, discharged, axioms, cases, verdicts, meta,
                    nviol, notes):
     keys = {}
@@ -490,6 +497,7 @@ def write_evidence(cfg, path, tier, seed, t0, obligations, discharged, axioms, c
             "traces_validated_against_impl": vcount.get("Agree", 0),
             "verdicts": vcount, "input_distribution": meta.get("dist", {}),
             "explanation": cfg.get("level_text", ""),
+            "theorems": THEOREM_REPORT,
             "notes": notes,
         },
         "assumptions": cfg.get("assumptions", []),
